@@ -117,7 +117,15 @@ Shape(i) ==
                     con |-> ("aliases" :> "v1")]
       [] i = 12 -> [type |-> "m.room.redaction", sk |-> "none", redacts |-> "r1", tpi |-> NoTpi,
                     con |-> ("redacts" :> "v1" @@ "reason" :> "v1")]
-AllShapes == 1..12
+      \* type m.room.create but NOT the create event (that is the one with state key ""): an ordinary event
+      [] i = 13 -> [type |-> "m.room.create", sk |-> "none", redacts |-> "none", tpi |-> NoTpi,
+                    con |-> ("creator" :> "v1" @@ "room_version" :> "v1")]
+      [] i = 14 -> [type |-> "m.room.create", sk |-> "user", redacts |-> "none", tpi |-> NoTpi,
+                    con |-> ("creator" :> "v1" @@ "m.federate" :> "v1")]
+AllShapes == 1..14
+\* shapes 13-14 matter where the create event is special (domainless room IDs); elsewhere they are one more
+\* m.room.create content and are not enumerated
+ShapesOf(v) == IF DomainlessRoomIDs(v) THEN ShapeIds ELSE ShapeIds \ {13, 14}
 
 Variant(w) ==
     CASE w = 1 -> [prev |-> "p1", auth |-> "a2", depth |-> "d2", unsigned |-> "none"]
@@ -164,14 +172,16 @@ SignerOf(p) == p.origin \o "/" \o p.sigkey
 
 \* --- the accessors the room version derives ------------------------------------------------------------
 \* room reference: the token the event's RoomID() stands for
-RoomRef(v, e) == IF DomainlessRoomIDs(v) /\ e.type = "m.room.create" /\ "state_key" \in DOMAIN e.top
-                    /\ "room_id" \notin DOMAIN e.top
+\* the create event: type m.room.create with the empty state key, nothing else
+IsCreateEvent(e) == /\ e.type = "m.room.create"
+                    /\ (IF "state_key" \in DOMAIN e.top THEN e.top["state_key"] = "empty" ELSE FALSE)
+RoomRef(v, e) == IF DomainlessRoomIDs(v) /\ IsCreateEvent(e)
                  THEN [own |-> Id(v, e)]                  \* own event ID, sigil swapped
                  ELSE [given |-> e.top["room_id"]]
 \* auth references reported: in room versions with domainless room IDs every event but the create event
 \* reports the create event (named by its room ID) first
 AuthRefs(v, e) == IF DomainlessRoomIDs(v)
-                  THEN IF e.type = "m.room.create" /\ "state_key" \in DOMAIN e.top THEN <<>>
+                  THEN IF IsCreateEvent(e) THEN <<>>
                        ELSE <<"create-of-" \o e.top["room_id"], e.top["auth_events"]>>
                   ELSE <<e.top["auth_events"]>>
 
@@ -187,7 +197,7 @@ Log(op, arg, e2, r2) ==
 NoOut == [kind |-> "none"]
 
 Init ==
-    /\ \E v \in Versions, i \in ShapeIds, w \in VariantIds :
+    /\ \E v \in Versions, w \in VariantIds : \E i \in ShapesOf(v) :
           LET p == ProtoOf(i, w) IN
           /\ ver = v
           /\ proto = p
@@ -260,7 +270,8 @@ Pick(S) == CHOOSE k \in S : TRUE
 Next3(x, a, b, c) == IF x = a THEN b ELSE IF x = b THEN c ELSE b
 
 SibApplicable(v, p, f) ==
-    CASE f \in {"type", "sk", "room"} -> ~Roomless(v, p)       \* a create event of these versions has no room_id
+    CASE f \in {"type", "room"} -> ~Roomless(v, p)             \* a create event of these versions has no room_id
+      [] f = "sk" -> ~Roomless(v, p) /\ ~(DomainlessRoomIDs(v) /\ p.type = "m.room.create" /\ p.sk = "none")
       [] f = "con_kept" -> KeptOf(v, p) # {}
       [] f = "con_unkept" -> UnkeptOf(v, p) # {}
       [] f = "con_del" -> DOMAIN p.con \ {NestedKey} # {}
@@ -358,6 +369,7 @@ ParseTampered ==
           /\ Log("TRU", out.hm, r.e, r.red)
           /\ out' = [kind |-> "tamper", T |-> out.T, hm |-> out.hm, kout |-> out.kout, kin |-> out.kin,
                      red |-> r.red,
+                     noop |-> RedactV(ver, Received(ver, wire)) = Received(ver, wire),   \* nothing to redact
                      topk |-> DOMAIN r.e.top, conk |-> DOMAIN r.e.con, tpik |-> DOMAIN r.e.tpi.keys,
                      idsame |-> Id(ver, r.e) = Id(ver, built),
                      valid |-> {s \in DOMAIN sigs : sigs[s] = SignedProj(A, r.e)}]
@@ -366,9 +378,13 @@ ParseTampered ==
 
 TamperSets(E) == {T \in SUBSET E : Cardinality(T) <= TamperMax \/ Cardinality(T) >= Cardinality(E) - 1}
 
+\* after a Redact() before (the event on the wire is invariant under redaction in every room version): only
+\* the hash tamperings alone or with one more element
+PreRedacted == Len(hist) > 0 /\ hist[1].op = "RD"
 TamperNext ==
     /\ phase = "tamper"
-    /\ \E T \in TamperSets(ApplicableElems(ver, ev)) :
+    /\ \E T \in (IF PreRedacted THEN {X \in SUBSET ApplicableElems(ver, ev) : Cardinality(X) <= 1}
+                  ELSE TamperSets(ApplicableElems(ver, ev))) :
        \E hm \in HashModes :
         \* a forger's re-hash of unchanged hashed material is the original hash: same as "keep"
         /\ ((hm = "rehash") => (T \cap HashedElems(ver) # {})) = TRUE
@@ -415,13 +431,16 @@ PSiblingHash ==
 PV12 ==
     DomainlessRoomIDs(ver) =>
         /\ (IsCreate(proto) => RoomRef(ver, built) = [own |-> Id(ver, built)] /\ AuthRefs(ver, built) = <<>>)
-        /\ (~IsCreate(proto) => AuthRefs(ver, built)[1] = "create-of-" \o proto.room)
+        /\ (~IsCreate(proto) => /\ AuthRefs(ver, built) = <<"create-of-" \o proto.room, proto.auth>>
+                                 /\ RoomRef(ver, built) = [given |-> proto.room])
 
 \* C04 ------------------------------------------------------------------------------------------------
 TDone == phase = "done" /\ Family = "tamper"
 HashAltered == out.hm \in {"garbage", "remove"} \/ (out.hm = "rehash" /\ out.T \cap HashedElems(ver) # {})
 \* the content hash no longer matches the hashed fields
-Mismatch == out.hm \in {"garbage", "remove"} \/ (out.hm = "keep" /\ out.T \cap HashedElems(ver) # {})
+\* (an event redacted before it is sent keeps the hash of its unredacted form: no match unless nothing was removed)
+BaseOK == PreRedacted => HashOK(Received(ver, RedactV(ver, built)))
+Mismatch == out.hm \in {"garbage", "remove"} \/ (out.hm = "keep" /\ (out.T \cap HashedElems(ver) # {} \/ ~BaseOK))
 \* material the redaction algorithm of the version strips (or the receiver strips)
 Redactable(x) ==
     CASE x = "con_out_chg" -> TRUE
@@ -435,6 +454,8 @@ Redactable(x) ==
 OnlyRedactable == ~HashAltered /\ \A x \in out.T : Redactable(x) = TRUE
 
 PRedactedIffMismatch == TDone => (out.red <=> Mismatch)
+\* ... in particular when redaction has nothing to remove: the flag still tells that the hash failed
+PRedactedNoop == (TDone /\ out.noop /\ out.hm \in {"garbage", "remove"}) => (out.red /\ redacted)
 PRedactedForm ==
     (TDone /\ out.red) =>
         /\ out.topk = (DOMAIN wire.top \ Stripped(ver)) \cap TopKeep(A)
